@@ -430,6 +430,12 @@ func vfC04Modes() []vfC04Mode {
 	ms = append(ms, vfC04Mode{Name: "dual-both-hvtrue", Cfg: c})
 	c.HelloVerify = false
 	ms = append(ms, vfC04Mode{Name: "dual-both-hvfalse", Cfg: c})
+	// the same with a fuller ClientHello: verification by server name, SRTP, connection IDs and ALPN put further
+	// extensions behind supported_versions
+	c = vfBaseCfg(vfSuiteInfo{Name: "default", Auth: "ecdsa"}, "ecdsa")
+	c.CVer, c.SVer, c.HelloVerify, c.Curves = "dual", "dual", true, 1
+	c.Verify, c.SRTP, c.CIDc, c.CIDs, c.ALPN = true, 2, 4, 4, 2
+	ms = append(ms, vfC04Mode{Name: "dual-both-full-hello-hvtrue", Cfg: c})
 
 	return ms
 }
